@@ -186,7 +186,7 @@ func c11SrcStates(h *c11SrcHistory) ([]*c11State, error) {
 	}
 	for _, s := range h.Hist {
 		switch s.Kind {
-		case "good":
+		case "good", "rename": // rename: the files of the published content under permuted names (CertStore!LoadRenamed)
 			out = append(out, c11GoodState(h.Sets[s.Content]))
 		case "same":
 			out = append(out, c11GoodState(h.Sets[last]))
@@ -285,7 +285,7 @@ func c11JudgeStep(h *c11SrcHistory, j int, pubs [][]tls.Certificate, cfg *tls.Co
 		}
 		report("publish", step.Kind, damage, got, fmt.Sprintf("load %d (%s %s) published %s; the material is unusable, the working set %q must stay", j+1, step.Kind, step.Content, describe(pubs[0]), step.Reg))
 	case step.Pub != "" && len(pubs) != 1:
-		report("publish", step.Kind, damage, fmt.Sprintf("%d-publications", len(pubs)), fmt.Sprintf("load %d (good %s): %d publications before the next load, want exactly one", j+1, step.Content, len(pubs)))
+		report("publish", step.Kind, damage, fmt.Sprintf("%d-publications", len(pubs)), fmt.Sprintf("load %d (%s %s): %d publications before the next load, want exactly one", j+1, step.Kind, step.Content, len(pubs)))
 	case step.Pub != "":
 		want := ders(h.Sets[step.Pub])
 		ok := len(pubs[0]) == len(want)
@@ -293,7 +293,7 @@ func c11JudgeStep(h *c11SrcHistory, j int, pubs [][]tls.Certificate, cfg *tls.Co
 			ok = len(pubs[0][i].Certificate) > 0 && bytes.Equal(pubs[0][i].Certificate[0], want[i])
 		}
 		if !ok {
-			report("publish", step.Kind, damage, "other-set", fmt.Sprintf("load %d (good %s) published %s, want the set %s in alphabetical file order", j+1, step.Content, describe(pubs[0]), step.Pub))
+			report("publish", step.Kind, damage, "other-set", fmt.Sprintf("load %d (%s %s) published %s, want the set %s in alphabetical file order", j+1, step.Kind, step.Content, describe(pubs[0]), step.Pub))
 		}
 	}
 	// what a client is presented now
